@@ -80,7 +80,7 @@ def replay_sp_main_{L}(t):
     return [_replay_spelling(t, t, 0, True), _replay_spelling(t, "Main:" + t, 0, True), _replay_spelling(t, t.replace(" ", "_"), 0, True)]
 ''')
     # histories on the real store: first operation fixed per condition, the rest symbolic
-    n = 3 if quick else 4
+    n = 3 if quick else 5
     for op0 in range(8):
         for t0 in range(2):
             ps = ", ".join(f"o{i}: int, t{i}: int" for i in range(1, n))
@@ -128,25 +128,21 @@ def run(rep: C.Report) -> None:
         "yields the titles actually queried; CrossHair checks for every symbolic title (characters over {a,A,_,space,b}) and every spelling variant "
         "(prefix given/omitted/lower-case/alias, underscore vs space, lower-case first letter) that the written key is among the queried titles, and that a "
         "title differing in the case of a later letter is not. Read-after-write: on the REAL SQLite store and the REAL lru_cache, every history of "
-        "3 (thorough: 4) operations from {add v1, add v2, add v1 with another content model, add redirect, get, exists, body, resolve-redirect} x 2 titles equals a dict model; the first operation is fixed "
-        "per condition and the solver drives the case split over the rest (said openly: finite enumeration by forks)."
+        "3 (thorough: 5) operations from {add v1, add v2, add v1 with another content model, add redirect, get, exists, body, resolve-redirect} x 2 titles equals a dict model; the first operation is fixed "
+        "per condition and the solver drives the case split over the rest (said openly: finite enumeration by forks). CrossHair bypasses functools.lru_cache wrappers "
+        "while tracing, so after the solver has chosen a history its operations run untraced, on the real memo; all lru_cache memos found on the class are cleared between histories."
     )
     rep.assumptions += ["recorder stub answers 'no rows'; SQL text is not interpreted (only the bound values are compared)", "redirect resolution is one hop within the same namespace"]
     rep.outside += ["commit / reopen identity through a new context (SQLite file semantics)", "titles with ':' inside, non-ASCII titles", "histories longer than the bound"]
     rep.trusted += ["CrossHair 0.0.110", "z3", "sqlite3 (real, for the history conditions)"]
     src = open(H).read() + "\n" + gen(quick)
-    xh.check_harness(
-        rep,
-        H,
-        {
+    xh.check_harness(rep, H, {
             "^sp_": dict(name="Ob1 add_page key is among the titles get_page queries, for every spelling variant; later-letter case is significant", functions=["core.py:Wtp.add_page", "core.py:Wtp.get_page"], bounds=f"titles of 1..{3 if quick else 4} symbolic characters over {{a,A,_,space,b}}; namespaces Template, Module, Main"),
-            "^hist_": dict(name="Ob2/Ob3 read-after-write and one-hop redirect on the real store", functions=["core.py:Wtp.add_page", "core.py:Wtp.get_page", "core.py:Wtp.page_exists", "core.py:Wtp.get_page_resolve_redirect"], bounds=f"all histories of {3 if quick else 4} operations over 8 operation kinds x 2 titles (case split by forks)"),
-        },
-        timeout=90 if quick else 600,
-        src=src,
-        batch=4,
-        twins=False,
-    )
+        }, timeout=90 if quick else 600, src=src, batch=4, twins=False, select="^sp_")
+    # the history conditions only case-split in the solver and run the operations untraced (see harness): ~25 ms per history
+    xh.check_harness(rep, H, {
+            "^hist_": dict(name="Ob2/Ob3 read-after-write and one-hop redirect on the real store", functions=["core.py:Wtp.add_page", "core.py:Wtp.get_page", "core.py:Wtp.page_exists", "core.py:Wtp.get_page_resolve_redirect"], bounds=f"all histories of {3 if quick else 5} operations over 8 operation kinds x 2 titles (case split by forks)"),
+        }, timeout=90 if quick else 3600, src=src, batch=4 if quick else 1, twins=False, select="^hist_")
 
 
 def replay(r: dict) -> int:
